@@ -6,7 +6,7 @@ n=${1:-2}
 ls -d seeded/refactors/C*_R* | xargs -n1 basename | sort > /tmp/refall.$$.list
 for r in $(seq 0 $((n-1))); do
   ( awk -v n=$n -v r=$r 'NR % n == r' /tmp/refall.$$.list | while read d; do
-      tools/refcheck.py ${d%_*} ${d#*_} --src seeded/refactors/$d 2>&1 | cut -c1-300
+      tools/refcheck.py ${d%_*} ${d#*_} --src seeded/refactors/$d --checks ${REF_CHECKS:-all} 2>&1 | cut -c1-300
     done ) &
 done
 wait
